@@ -1100,6 +1100,8 @@ impl Task {
                 });
 
                 if is_updated {
+                    // the ancestor changed without a task event of its own: keep its row current
+                    let _ = t.runtime.cache().upsert(t);
                     break;
                 }
             }
